@@ -77,6 +77,31 @@ def run(ctx):
                   "%d history(ies) leave state behind; shortest: %s" % (len(ts), json.dumps([[e["kind"], e["outcome"], {k: v for k, v in e["t"].items() if v}] for e in t0["ev"]])),
                   {"trace": t0, "cmd": "bin/check C13 --tier %s" % ctx.tier})
 
+    # observations whose notifications need block-wise transfer (specs/bw/ObsBlock.tla, shared with C04 / C08): a completed
+    # notification leaves nothing behind at once (the GET under a private token that fetched the rest, its reassembly entry),
+    # and nothing is left after cancel + transfer timeout (driver and judge are C04's: obsbw.go, RecC04)
+    ro = vf.run_tlc(ctx, "bw", "MC_ObsBlock", "MC_ObsBlock.cfg", workers=8, timeout=1800, cont=False)
+    vf.tlc_must_finish(ro, "MC_ObsBlock")
+    plans = json.load(open(os.path.join(ro.dir, "plans.json")))
+    ojobs = [{"mode": "obsbw", "p": {"l": 0, "l2": 50, "cs": 0, "ss": 0, "cmms": 2048, "smms": 2048}, "plan": pl} for pl in plans]
+    ojp = os.path.join(ctx.work, "obsjobs.ndjson")
+    vf.write_ndjson(ojp, ojobs)
+    oout = os.path.join(ctx.work, "obsrecs.ndjson")
+    vf.drv(ctx, ["c04", ojp, oout], timeout=1800)
+    orecs = vf.read_ndjson(oout)
+    obad, g3, d3 = vf.judge_records(ctx, "bw", "RecC04", "RecC04_obs13.cfg", orecs, shards=2, timeout=900)
+    ctx.add("states", d3 + ro.distinct)
+    ctx.add("transitions", g3 + ro.generated)
+    ctx.add("traces_validated_against_impl", len(orecs))
+    ctx.cov["blockwise_observation_plans"] = len(orecs)
+    for clause, idxs in sorted(obad.items()):
+        xs = [orecs[i] for i in idxs]
+        t0 = min(xs, key=lambda t: len(t["plan"]))
+        vf.report(ctx, "C13_ObsBlockwise", {"mode": "observe-blockwise", "clause": clause},
+                  "%d observation(s) with block-wise notifications leave block-wise state behind; e.g. plan %s -> right after the last notification: client reassembly %d, client send cache %d, server reassembly %d; after cancel + timeout: %s" % (
+                      len(xs), t0["plan"], t0["rcvCliNow"], t0["sndCliNow"], t0["rcvSrvNow"], [t0[k] for k in ("rcvSrvX", "sndSrvX", "rcvCliX", "sndCliX", "obsCliX")]),
+                  {"trace": t0, "cmd": "bin/check C13 --tier %s" % ctx.tier})
+
     def mutate(t, rng):
         ev = [dict(e) for e in t["ev"]]
         ev[-1] = dict(ev[-1], t=dict(ev[-1]["t"], tokens=1))
